@@ -23,6 +23,13 @@ def cpp_desc(rng, nstructs):
             if v not in seen:
                 seen.add(v); vals.append((n, v))
         e["vals"] = vals
+    # a statically sized struct of several enums whose packed width is no power of two (3, 5, 6, 7 bits) between sub-byte integers: the
+    # sizes of such structs are where a layout helper with other rounding rules would differ from the wire format
+    top = rng.choice([4, 5, 7, 17, 33, 100])
+    desc["enums"].append({"name": "EOdd", "vals": [("A", 0), ("B", 1), ("Z", top)]})
+    fs = [{"name": f"e{j}", "id": j, "type": ("enum", "EOdd")} for j in range(rng.randint(2, 4))]
+    fs.insert(rng.randrange(len(fs) + 1), {"name": "pad", "id": 9, "type": ("u", rng.randint(1, 7))})
+    desc["structs"].append({"name": "SOdd", "fields": fs})
     if rng.random() < 0.6:
         gen_schema.add_services(rng, desc)          # services make the generator derive rpc types from the schema it is given
     return desc
@@ -53,7 +60,7 @@ def run(chk):
     nsch, nstructs, nval = (3, 10, 26) if quick else (36, 12, 80)
     broken = chk.proof_obligations(["Corr/Cpp.vo"])
     chk.coverage["rule"] = (
-        "schemas of ~10 structs from the serde profile (every constructor, widths 1..64, ids out of declaration order, enumerators below 256) are "
+        "schemas of ~10 structs from the serde profile (every constructor, widths 1..64, ids out of declaration order, enumerators below 256; plus one statically sized struct of 2-4 enums of 3/5/6/7 bits and a sub-byte integer) are "
         "given to the real C++ generator twice (same parsed object; more than half declare services), the second output - which must be the first again - is compiled as C++17 with a generic stdin/stdout driver (a compile error is a failing input), "
         "and for boundary-biased values EncodeJson is compared in Coq with the model (= Wire.v) and DecodeJson of canonical bytes with the value; "
         "for schemas with services the derived rpc envelope structs (<Struct>Input / <Struct>Output) are driven the same way against the derived schema; one schema per run is also built as a declaration-permuted twin (C15); non-trivial = value with >= 2 leaves")
